@@ -58,8 +58,8 @@ Print Assumptions C16_bounded.
    (delivered at the owner of the destination, TTL ran out, no route, nobody answers ARP) *)
 Theorem C16_follows_route : forall routers accepts topo start p l e,
   wf_pkt p -> trajectory routers accepts topo start p = (l, e) ->
-  chain start l /\ Forall (hop_ok routers topo (p_dst p)) l /\
-  ending_ok routers accepts topo start p l e.
+  chain topo O start l /\ Forall (hop_ok routers (p_dst p)) l /\
+  ending_ok routers accepts topo O start p l e.
 Proof. exact follows_route. Qed.
 Print Assumptions C16_follows_route.
 
@@ -73,8 +73,7 @@ Theorem C16_follows_lpm : forall routers accepts topo start p l e,
                  contains n (p_dst p) = true /\
                  (forall n' v', In (n', v') (tbl_iter (r_table (routers (ho_router h)))) ->
                                 contains n' (p_dst p) = true -> masklen n' <= masklen n) /\
-                 ho_nh h = next_hop_of gw (p_dst p) /\
-                 topo (ho_router h) (ho_slot h) (ho_nh h) = Some (ho_to h).
+                 ho_nh h = next_hop_of gw (p_dst p).
 Proof. exact follows_lpm. Qed.
 Print Assumptions C16_follows_lpm.
 
@@ -85,7 +84,8 @@ Proof. exact payload_unchanged. Qed.
 Print Assumptions C16_payload_unchanged.
 
 (* a trajectory has one ending; if it is a delivery, it is at the last node reached, which is
-   a host that listens on the destination address *)
+   a host with a listen binding that takes the destination address (its own address, or
+   0.0.0.0: C16_accepts_own_address) *)
 Theorem C16_only_destination : forall routers accepts topo start p l e,
   trajectory routers accepts topo start p = (l, e) ->
   forall h, e = EDelivered h -> accepts h (p_dst p) = true /\ last_node start l = NHost h.
@@ -103,7 +103,7 @@ Proof. exact delivered. Qed.
 Print Assumptions C16_delivered.
 
 Example C16_example_ranked :
-  ranked (cfg_router (ex_line 65535)) (cfg_accepts (ex_line 65535)) (cfg_topo (ex_line 65535))
+  ranked (cfg_router (ex_line 65535)) (cfg_accepts (ex_line 65535)) (fun _ => cfg_topo (ex_line 65535))
          (ex_pkt 30 18) 1 (fun r => r = 0 \/ r = 1) (fun r => if r =? 0 then 1%nat else 0%nat).
 Proof. exact ex_ranked. Qed.
 Print Assumptions C16_example_ranked.
@@ -125,7 +125,9 @@ Print Assumptions C16_example_loop_falls_silent.
    an accepted trace contains nothing but the scenario's datagrams, and for each of them the
    observed frames start at the sender, decrement the TTL by one per frame, number at most
    the initial TTL, differ in nothing but the TTL, never repeat, follow the configured routes
-   hop by hop, and the datagram reaches only an application of the destination host *)
+   hop by hop (to the observed receivers; to the owners of the next-hop addresses when
+   [ideal_hops] holds), and the datagram reaches only an application whose binding takes the
+   destination address *)
 Theorem C16_validate_sound : forall c ds fr xs,
   validate c ds fr xs = true -> trace_property c ds fr xs.
 Proof. exact validate_sound. Qed.
@@ -139,6 +141,31 @@ Example C16_example_validate :
            [(0, mkRx 1 167772170 167772682 (repeat 0 10))] = false.
 Proof. exact ex_validate_accepts. Qed.
 Print Assumptions C16_example_validate.
+
+(* "to no other host's applications" is REFUTED for the code as it is when ARP hands a frame to a
+   station that does not own the next hop (the ARP table is keyed by IP address only and shared
+   by all interfaces: a MAC learnt on one network is used on another) and that station's
+   application listens on 0.0.0.0.  Witness: R0's route for a local network names the wrong
+   slot.  C16_only_destination above is the positive statement (the receiver has a binding
+   that takes the address); with C16_accepts_own_address it names the destination host when no
+   application listens on 0.0.0.0; C16_validate_sound's [ideal_hops] clause is the other
+   excluding hypothesis (ARP behaved). *)
+Theorem C16_only_destination_refuted :
+  snd (cfg_trajectory ex_bad (NRouter 0) (ex_bad_pkt 30)) = ENoArp 0 /\
+  exists topo l h,
+    trajectory (cfg_router ex_bad) (cfg_accepts ex_bad) topo (NRouter 0) (ex_bad_pkt 30)
+      = (l, EDelivered h) /\
+    cfg_host_ip ex_bad h <> p_dst (ex_bad_pkt 30).
+Proof. exact refuted_only_destination. Qed.
+Print Assumptions C16_only_destination_refuted.
+
+Example C16_example_validate_polluted :
+  validate ex_bad [ex_bad_dgram] ex_bad_trace
+           [(0, mkRx 1 167772170 167772428 (repeat 0 10))] = true /\
+  all_ideal ex_bad 0 [ex_bad_dgram] ex_bad_trace = false /\
+  all_ideal (ex_line 65535) 0 [ex_dgram] ex_trace = true.
+Proof. exact ex_bad_validate. Qed.
+Print Assumptions C16_example_validate_polluted.
 
 (* ---- the model shows where the code leaves the property's ground *)
 (* TTL 0 at a router: u8 underflow in the dev profile.  No conforming host and no router emits
